@@ -267,7 +267,7 @@ struct PropC14
     p.defaultCtor = r.chance(0.2);
     if (r.chance(0.15)) {p.rangeCtor = true; double range = std::max(p.upper[0] - p.lower[0], p.res) * 0.5; for (int k = 0; k < 3; ++k) {p.lower[k] = -range; p.upper[k] = range;}}
     auto point = [&](double * v, const double * other) {
-        int cls = (int)r.below(10);
+        int cls = (int)r.below(11);
         for (int k = 0; k < p.dim; ++k) {
           double lo = p.lower[k], up = p.upper[k];
           double u = lo + (up - lo) * r.unit();
@@ -280,7 +280,10 @@ struct PropC14
             case 6: v[k] = (other && r.chance(0.7)) ? other[k] : u; break;            // shares coordinates with the other point
             case 7: v[k] = other ? other[k] + p.res * (double)r.range(-3, 3) : u; break;  // few cells away, lattice aligned
             case 8: v[k] = other ? other[k] + (k == 0 ? 1 : (r.chance(0.5) ? 1 : -1)) * p.res * 7.25 : u; break;  // exact diagonal
-            default: v[k] = other ? other[k] + r.uniform(-1, 1) * p.res * 0.4 : u;     // same or neighbouring cell
+            case 9: v[k] = other ? other[k] + r.uniform(-1, 1) * p.res * 0.4 : u; break;   // same or neighbouring cell
+            default:   // the neighbouring representable number (of the grid's scalar type), often across a cell border
+              if (other) {double dir = r.chance(0.5) ? INFINITY : -INFINITY;
+                v[k] = p.isFloat ? (double)std::nextafter((float)other[k], (float)dir) : std::nextafter(other[k], dir);} else {v[k] = cellBase + 0.5 * p.res;}
           }
           v[k] = std::min(up, std::max(lo, v[k]));
         }
